@@ -25,8 +25,10 @@ ALPHAS = [0.0, 0.05, 0.5, 1.0]
 
 
 def bad_inputs():
+    # 10**400 is an int that no float can hold: whatever the tally does with
+    # it (accept it exactly is impossible), nothing may change when it raises
     return [math.nan, "x", None, decimal.Decimal("1.5"), [1.0],
-            fractions.Fraction(1, 2), 1 + 2j]
+            fractions.Fraction(1, 2), 1 + 2j, 10 ** 400, -10 ** 400]
 
 
 # ---------------------------------------------------------------- exact side
@@ -271,7 +273,7 @@ def check_rejected(t, variant, sub, xs, out, hist):
         c = clone(t)
         try:
             feed(c, variant, b)
-            out.append(("invalid-observation-accepted", hist, repr(b)))
+            out.append(("invalid-observation-accepted", hist, repr(b)[:40]))
         except Exception:  # noqa
             pass
         after = snapshot(c)
@@ -279,7 +281,7 @@ def check_rejected(t, variant, sub, xs, out, hist):
             diff = [(GETTERS[i][0], before[i], after[i])
                     for i in range(len(before))
                     if not same(before[i], after[i])]
-            out.append(("rejected-input-changed-state", hist, repr(b),
+            out.append(("rejected-input-changed-state", hist, repr(b)[:40],
                         diff[:3]))
 
 
